@@ -43,12 +43,30 @@ TEXT = {
             'After each of 10-40 random operations (mode switches, filters, slices, split, extend, analysis queries) every live trajectory is probed on a deep copy and compared with the model; catches call-order dependent corruption. Sampled (hundreds to thousands of histories).'),
     'C19': ('offline checker over split outputs: every part event mapped back to exactly one original event with one offset per part; part jumps subset of whole; K7 classifier',
             'For all n_parts up to the number of events on small systems and sampled values on large ones, states must concatenate, events must partition with consistent non-negative re-basing, parts must be chronological and part jumps must be jumps of the whole; Trajectory.split parts must be ordered contiguous ranges. Sampled systems, exhaustive n_parts on small ones.'),
+    'C08': ('reference-model monitor on trajectory_to_volume (np.add.at histogram on floor(x n), knife-edge band except on exact power-of-two grids) + exhaustive voxel round trip for every index of every grid size',
+            'Sample conservation, voxel placement and voxel-size bounds of the real density volume are compared with an independent histogram over lattices, resolutions (incl. integer ratios) and hostile / edge coordinates; the voxel->fraction->voxel round trip is enumerated exhaustively for all grid sizes 1..3000 (quick) / 20000 (thorough) on each axis.'),
+    'C09': ('formula oracle on Volume.get_free_energy and free_energy_graph nodes over random densities / temperatures / thresholds',
+            'Finite values, F = -kT ln p on visited voxels, normalisation, monotonicity over all voxel pairs, prohibitive energy of unvisited voxels and their exclusion from graphs are asserted on random integer / float / heavy-tailed / single-voxel densities and volumes from real trajectories. Sampled.'),
+    'C10': ('reference-model monitor: own heap Dijkstra / union-find bottleneck over the periodic grid vs optimal_path (5 methods, both neighbourhoods) and optimal_percolating_path (7 direction sets); K3/K4 classifiers',
+            'Every returned path is checked for endpoints, neighbour steps, thresholds, reported energies and wrapped/fractional coordinates, and its cost is compared with an independent optimum (all start/stop pairs on small grids, sampled on larger ones). Deviations are tolerated only if they are exactly the recorded mechanisms K3 (22-move neighbourhood) or K4 (dead minmax branch).'),
+    'C17': ('reference-model monitor: per symmetry operation image-enumeration distances and inverse-operation images vs ShapeAnalyzer.analyze_positions / analyze_trajectory (SpaceGroup and spglib operations, supercells)',
+            'Counts, distances and full coordinates of the collected points are compared with an independent per-operation enumeration over space groups of all crystal systems with compatible random lattices, sites near faces and supercell folding. Sampled (48 groups quick, all 230 thorough).'),
+    'C18': ('ground-truth reference model for bond vectors (image enumeration), group orbits, matrix transform, spherical inverse and O(T^2) autocorrelation; K5/K8 classifiers',
+            'Orientation vectors of rotating, face-crossing tetrahedral clusters are compared with ground truth; normalize / symmetrize (20 point groups and explicit stacks) / transform / spherical round trip are asserted; the autocorrelation is compared with its definition and tolerated only when it equals the closed-form aliasing model of K5.'),
+    'C20': ('history monitor: random create/call/drop/gc/address-reuse interleavings on objects from different data; cached value vs method.__wrapped__ and pristine twin; weakref liveness; lru cache_info via closure; K6 classifier',
+            'Every cached return value is compared with an uncached recomputation and with a twin built from the same data; objects recreated at the address of destroyed ones and cache floods beyond maxsize are driven explicitly; liveness after the last reference is observed with weakref+gc. K6 survivors are tolerated only when held solely through Collective.jumps.'),
 }
 
 CLAIMED = {
     pid: dict(level='exploration', technique=t, text=x, design=f'DESIGN.md §2 {pid}')
     for pid, (t, x) in TEXT.items()
 }
+CLAIMED['C16'] = dict(
+    level='fault_enumeration',
+    technique='fault enumeration: every byte-prefix of the cache file (= every crash point of the non-atomic write), garbage / bit-flip / unimportable pickles, damage-recover cycles, real mid-write crashes; audit-hook open() log as monitor; equality with a fresh parse as oracle',
+    text='For synthetic but valid vasprun / LAMMPS / GROMACS inputs the cache file is damaged in every way an interrupted write can leave it (every prefix in the thorough tier, every 5th plus both ends in the quick tier) and in other unreadable ways; after each fault the real loader must return the fresh-parse trajectory, leave a complete cache and, per the audit log, have read the cache, re-read the sources and rewritten the cache. Default cache names are checked to separate result-changing options. Exhaustive over crash points of the generated files, sampled over configurations.',
+    design='DESIGN.md §2 C16',
+)
 
 NOT_YET = 'check under construction; will be claimed once its monitor is built and validated against seeded mutants'
 
